@@ -20,6 +20,12 @@
 (*                  of the total, T_n the Chebyshev polynomials)           *)
 (*  rot_reach       rotate_towards by at least the remaining angle ends on *)
 (*                  the target direction, finite, length preserved         *)
+(*  view            look_to / look_at: rigid (orthonormal, det +1), eye to *)
+(*                  the origin, dir to -Z / +Z, up into the +Y half of the *)
+(*                  YZ plane with roll error <= 2^9 u / |dir x up|         *)
+(*  proj            perspective / orthographic: zero pattern, clip w, near *)
+(*                  and far planes to the documented depths, fov / box     *)
+(*                  planes to +-1, for far/near up to 2^20                 *)
 (* u = 2^-24 (f32) / 2^-53 (f64).                                          *)
 (***************************************************************************)
 EXTENDS Dyadic, TLC, Json, IOUtils
@@ -108,12 +114,74 @@ RotReachOk(ev) ==
             /\ DyLe(Lagrange(r, b), DyMul(DyPow2(14 - p), DyMul(VSq(r), VSq(b))))    \* parallel to the target (sin^2 <= 2^14 u)
             /\ DyIsPos(VDot(r, b))
 
+\* ---- view transforms (C11): rigid, eye -> origin, dir -> -Z (rh) / +Z (lh), up into the +Y half of the YZ plane -------------
+Cross3(a, b) == << DySub(DyMul(a[2], b[3]), DyMul(a[3], b[2])), DySub(DyMul(a[3], b[1]), DyMul(a[1], b[3])), DySub(DyMul(a[1], b[2]), DyMul(a[2], b[1])) >>
+\* image of v under the matrix with columns c (column-major): sum_k c[k] * v[k]
+MatVec3(c, v) == [r \in 1..3 |-> DyAdd(DyAdd(DyMul(c[1][r], v[1]), DyMul(c[2][r], v[2])), DyMul(c[3][r], v[3]))]
+ViewOk(ev) ==
+    LET p == P(ev) IN
+    /\ \A k \in 1..3 : AllFinite(ev.lin[k])
+    /\ LET c == [k \in 1..3 |-> DV(ev.lin[k])]
+           d == DV(ev.dir) u == DV(ev.up)
+           t1 == DyPow2(7 - p)
+           zs == IF ev.hand = "rh" THEN DyInt(-1) ELSE Dy1
+           id == MatVec3(c, d)
+           iu == MatVec3(c, u) IN
+       /\ DyNear(VSq(d), Dy1, t1) /\ DyNear(VSq(u), Dy1, t1)                                       \* the recorded dir and up are unit vectors
+       /\ DyLe(DyPow2(-20), Lagrange(d, u))                                                         \* ... and not parallel: |dir x up| >= 2^-10
+       /\ \A i \in 1..3 : DyNear(VSq(c[i]), Dy1, t1)                                                \* orthonormal columns
+       /\ \A i, j \in 1..3 : i < j => DyNear(VDot(c[i], c[j]), Dy0, t1)
+       /\ DyLt(DyPow2(-1), VDot(Cross3(c[1], c[2]), c[3]))                                          \* determinant +1, not -1
+       /\ DyNear(id[1], Dy0, t1) /\ DyNear(id[2], Dy0, t1) /\ DyNear(id[3], zs, t1)                 \* the view direction goes to -Z / +Z
+       /\ DyIsPos(iu[2])                                                                             \* up lands in the +Y half ...
+       /\ DyLe(DyMul(DySq(iu[1]), Lagrange(d, u)), DyPow2(2 * (9 - p)))                             \* ... of the YZ plane: |x| <= 2^9 u / |dir x up|
+       /\ ("t" \in DOMAIN ev) =>                                                                    \* matrix / affine forms: the eye goes to the origin
+             LET e == DV(ev.eye) tr == DV(ev.t) ie == MatVec3(c, e) IN
+             \A r \in 1..3 : DyNear(DyAdd(ie[r], tr[r]), Dy0, DyMul(t1, DyAdd(L1(e), Dy1)))
+
+\* ---- projections (C11): the documented planes go to the documented depths, the field of view / the box to +-1 ----------------
+\* m: 4 columns of 4 entries.  Perspective: view-space depth d > 0 in front of the camera is z = -d (rh) / +d (lh)
+ProjOk(ev) ==
+    LET p == P(ev) IN
+    /\ \A k \in 1..4 : AllFinite(ev.m[k])
+    /\ LET m == [k \in 1..4 |-> DV(ev.m[k])]
+           n == DecDy(ev.near)
+           rel == DyPow2(6 - p)
+           zero(x) == DyIsZero(x)
+           zsgn == IF ev.hand = "rh" THEN DyInt(-1) ELSE Dy1 IN
+       IF ev.kind = "persp" THEN
+           LET sx == m[1][1] sy == m[2][2] A == m[3][3] Bz == m[4][3]
+               t == DyPow2(ev.tj) a == DecDy(ev.aspect)
+               zclip(d) == DyAdd(DyMul(DyMul(A, zsgn), d), Bz)
+               mag(d) == DyAdd(DyMul(DyAbs(A), d), DyAbs(Bz))
+               depthIs(d, want) == DyNear(zclip(d), want, DyMul(rel, DyAdd(mag(d), DyAbs(want)))) IN
+           /\ zero(m[1][2]) /\ zero(m[1][3]) /\ zero(m[1][4]) /\ zero(m[2][1]) /\ zero(m[2][3]) /\ zero(m[2][4])
+           /\ zero(m[3][1]) /\ zero(m[3][2]) /\ zero(m[4][1]) /\ zero(m[4][2]) /\ zero(m[4][4])
+           /\ DyCmp(m[3][4], zsgn) = 0                                                                \* clip w = -z (rh) / +z (lh)
+           /\ DyNear(DyMul(sy, t), Dy1, rel)                                                          \* y = d tan(fov/2) goes to +1
+           /\ DyNear(DyMul(DyMul(sx, t), a), Dy1, rel)                                                \* x = d tan(fov/2) aspect goes to +1
+           /\ CASE ev.conv = "gl" -> depthIs(n, DyNeg(n)) /\ depthIs(DecDy(ev.far), DecDy(ev.far))     \* near -> -1, far -> +1 (times w = d)
+                [] ev.conv = "zo" -> depthIs(n, Dy0) /\ depthIs(DecDy(ev.far), DecDy(ev.far))          \* near -> 0, far -> 1
+                [] ev.conv = "inf" -> depthIs(n, Dy0) /\ DyNear(DyMul(A, zsgn), Dy1, rel)              \* near -> 0, infinity -> 1
+                [] ev.conv = "infrev" -> depthIs(n, n) /\ DyLe(DyAbs(A), rel)                           \* near -> 1, infinity -> 0
+       ELSE
+           LET sx == m[1][1] sy == m[2][2] C == m[3][3] tx == m[4][1] ty == m[4][2] tz == m[4][3]
+               l == DecDy(ev.l) r == DecDy(ev.r) b == DecDy(ev.b) tp == DecDy(ev.t) f == DecDy(ev.far)
+               lin(s, x, o, want) == DyNear(DyAdd(DyMul(s, x), o), want, DyMul(rel, DyAdd(DyAdd(DyAbs(DyMul(s, x)), DyAbs(o)), Dy1)))
+               zc(d, want) == lin(DyMul(C, zsgn), d, tz, want) IN
+           /\ zero(m[1][2]) /\ zero(m[1][3]) /\ zero(m[1][4]) /\ zero(m[2][1]) /\ zero(m[2][3]) /\ zero(m[2][4])
+           /\ zero(m[3][1]) /\ zero(m[3][2]) /\ zero(m[3][4]) /\ DyCmp(m[4][4], Dy1) = 0            \* clip w = 1
+           /\ lin(sx, l, tx, DyInt(-1)) /\ lin(sx, r, tx, Dy1) /\ lin(sy, b, ty, DyInt(-1)) /\ lin(sy, tp, ty, Dy1)
+           /\ IF ev.conv = "gl" THEN zc(n, DyInt(-1)) /\ zc(f, Dy1) ELSE zc(n, Dy0) /\ zc(f, Dy1)
+
 Ok(ev) ==
     CASE ev.op = "normalize" -> NormalizeOk(ev)
       [] ev.op = "angle_parallel" -> AngleParallelOk(ev)
       [] ev.op = "move_towards" -> MoveOk(ev)
       [] ev.op = "slerp8" -> Slerp8Ok(ev)
       [] ev.op = "rot_reach" -> RotReachOk(ev)
+      [] ev.op = "view" -> ViewOk(ev)
+      [] ev.op = "proj" -> ProjOk(ev)
       [] OTHER -> FALSE
 
 \* the Chebyshev recurrence on known cosines:  T_2(1/2) = -1/2, T_3(1/2) = -1, T_8(0) = 1, T_4(1) = 1
